@@ -201,6 +201,8 @@ def render_graph(g, split):
             lines += imp + ['def f%d():' % i, '    return n%d' % j, 'n%d = f%d()' % (i, i)]
         elif k == 'class':
             lines += imp + ['class n%d(n%d):' % (i, j), '    attr%d = 1' % i]
+        elif k == 'star':
+            lines += (['from %s import *' % mod(j)] if split and mod(j) != mod(i) else []) + ['n%d = n%d' % (i, j)]
     files = {m + '.py': '\n'.join(ls) + '\n' for m, ls in mods.items()}
     files['main.py'] = 'from %s import n1\nn1\nn1.upper\nn1().attr1\nn1.attr2.more\nclass Sub(n1):\n    pass\nSub().attr1\n' % mod(1)
     return files
